@@ -532,3 +532,62 @@ pub fn %(pfx)s_s2n_corpus_%(i)d() {
 ''' % dict(pfx=pfx, i=gi // group, tier="quick" if gi // group < quick_groups else "thorough",
            doc=" ".join(repr(s) for s in grp).replace("\n", " "), body=body)
     return out
+
+
+# ------------------------------------------------------------------------------------
+# C16: substr per concrete length / arity; cat per operand shape pair
+# ------------------------------------------------------------------------------------
+CAT_SHAPES = ["str", "null", "bool", "int", "emptyarr", "arrnull", "obj", "arr2", "arrint"]
+
+
+def gen_c16(tier):
+    out = prelude("c16_op.rs")
+    for n in range(0, 5):
+        for with_len in (False, True):
+            if n > 3:
+                continue
+            q = n <= 1
+            out += '''
+//@ harness: c16_substr_n%(n)d_%(k)d tier=%(tier)s timeout=%(to)d kind=main mem=%(mem)d
+//@ cuts: strcount
+//@ encodes: op::string::substr
+//@ bound: string of %(n)d characters each of symbolic UTF-8 width (a / e-acute / euro / emoji), start = every i64%(l)s: result is the run of characters [start,end) of the character-based reference (negative start from the end, negative length stops before the end, clamping), decided through its byte length under symbolic widths
+#[cfg_attr(kani, kani::proof)]
+#[cfg_attr(kani, kani::unwind(%(unw)d))]
+#[cfg_attr(kani, kani::stub(std::fmt::format, stub_format))]
+#[cfg_attr(verif_replay, test)]
+pub fn c16_substr_n%(n)d_%(k)d() {
+    substr_case(%(n)d, %(wl)s);
+}
+''' % dict(n=n, k=3 if with_len else 2, tier="quick" if q else "thorough", mem=(8 if n == 0 else 12) if n < 2 else 28, to=900 if n < 2 else 3000,
+           l=", length = every i64" if with_len else "", unw=max(4 * n + 2, 3), wl="true" if with_len else "false")
+    quick_pairs = {(0, 1), (1, 2), (6, 2), (2, 0), (0, 6)}
+    for a in range(9):
+        out += '''
+//@ harness: c16_cat1_%(sa)s tier=%(tier)s timeout=%(to)d kind=main mem=%(mem)d
+//@ encodes: op::string::cat, js_op::to_string
+//@ bound: cat of one operand of shape %(sa)s (strings of 1 symbolic char, ints -99..999) and of no operands
+#[cfg_attr(kani, kani::proof)]
+#[cfg_attr(kani, kani::unwind(34))]
+#[cfg_attr(kani, kani::stub(std::fmt::format, stub_format))]
+#[cfg_attr(verif_replay, test)]
+pub fn c16_cat1_%(sa)s() {
+    cat1(%(a)d);
+}
+''' % dict(sa=CAT_SHAPES[a], a=a, tier="quick" if a in (0, 1, 2, 6) else "thorough",
+           to=600 if a in (0, 1, 2, 6) else 1800, mem=8 if a in (0, 1, 2, 6) else 20)
+        for b in range(9):
+            out += '''
+//@ harness: c16_cat2_%(sa)s_%(sb)s tier=%(tier)s timeout=%(to)d kind=main mem=%(mem)d
+//@ encodes: op::string::cat, js_op::to_string
+//@ bound: cat of two operands of shapes (%(sa)s, %(sb)s) (strings of 1 symbolic char, ints -99..999): concatenation of the JavaScript string forms
+#[cfg_attr(kani, kani::proof)]
+#[cfg_attr(kani, kani::unwind(34))]
+#[cfg_attr(kani, kani::stub(std::fmt::format, stub_format))]
+#[cfg_attr(verif_replay, test)]
+pub fn c16_cat2_%(sa)s_%(sb)s() {
+    cat2(%(a)d, %(b)d);
+}
+''' % dict(sa=CAT_SHAPES[a], sb=CAT_SHAPES[b], a=a, b=b, tier="quick" if (a, b) in quick_pairs else "thorough",
+           to=600 if (a, b) in quick_pairs else 1800, mem=8 if (a, b) in quick_pairs else 20)
+    return {"c16_op.rs": out}
